@@ -107,10 +107,22 @@ def build_and_audit(prop: str, mod, tier: str):
     rc, out = sh(["python3", os.path.join(VERIF, "tools", "gen_consts.py")])
     info["gen_consts"] = out.strip().split("\n")[-1] if out.strip() else ""
     if rc != 0:
-        broken.append({"kind": "regeneration", "what": "tools/gen_consts.py could not read the expected source shape", "detail": out[-2000:]})
+        broken.append({"kind": "regeneration", "what": "tools/gen_consts.py crashed", "detail": out[-2000:]})
     mods = list(mod.LEAN_MODULES)
     if tier == "thorough":
         mods += list(getattr(mod, "LEAN_MODULES_THOROUGH", []))
+    # generated files an extractor could not re-derive from the current source (filled from the recorded baseline): for the
+    # properties that import them this is a weakened tie, answered by an enlarged correspondence run, not an alarm by itself
+    try:
+        st = json.load(open(os.path.join(WORK, "gen_status.json"))).get("stale", {})
+    except Exception:  # noqa: BLE001
+        st = {}
+    deps = gen_deps(mods + [DRIVER_ROOTS.get(d, "") for d in getattr(mod, "DRIVERS", ["driver"])])
+    info["stale_constants"] = {k: v for k, v in st.items() if "Demeter.Gen." + k[:-5] in deps}
+    if info["stale_constants"]:
+        STALE.update(info["stale_constants"])
+        print("check: constants could not be re-extracted from the current source and are taken from the recorded baseline ("
+              + "; ".join(f"{k}: {v[:90]}" for k, v in info["stale_constants"].items()) + "): enlarged search budget")
     with Lock():
         rc_d, out_d = sh(["lake", "build"] + list(getattr(mod, "DRIVERS", ["driver"])), cwd=LEAN_DIR, timeout=3000)
         driver_ok = rc_d == 0
@@ -214,6 +226,31 @@ def write_replay(prop, payload) -> str:
     return rel
 
 
+DRIVER_ROOTS = {"driver": "Driver", "driver_aave": "DriverAave", "driver_deribit": "DriverDeribit", "driver_squeeth": "DriverSqueeth",
+                "driver_gmx": "DriverGmx", "driver_core": "DriverCore", "driver_metrics": "DriverMetrics", "driver_aaverisk": "DriverAaverisk",
+                "driver_tick": "DriverTick", "driver_broker": "DriverBroker"}
+STALE = {}
+
+
+def gen_deps(mods):
+    """the Demeter.Gen.* modules that the given Lean modules import, transitively (within lean/)"""
+    seen, todo, gen = set(), [m for m in mods if m], set()
+    while todo:
+        m = todo.pop()
+        if m in seen:
+            continue
+        seen.add(m)
+        if m.startswith("Demeter.Gen."):
+            gen.add(m)
+        p = module_path(m)
+        if not os.path.exists(p):
+            continue
+        for imp in re.findall(r"^import\s+(\S+)", open(p).read(), re.M):
+            if imp.split(".")[0] in ("Demeter", "Proofs") or imp in DRIVER_ROOTS.values():
+                todo.append(imp)
+    return gen
+
+
 COMMON_SOURCES = ("demeter/_typing.py", "demeter/utils/", "demeter/broker/", "demeter/__init__.py")
 
 
@@ -237,7 +274,7 @@ BOOST = []
 
 
 def run_harness(mod, prop, tier, seed, driver_ok, search):
-    ctx = Ctx(prop, tier, seed, driver_ok, search, boost=bool(BOOST))
+    ctx = Ctx(prop, tier, seed, driver_ok, search, boost=bool(BOOST) or bool(STALE))
     mod.run(ctx)
     return ctx
 
@@ -360,6 +397,7 @@ def main():
         "notes": jsonable(ctx.notes),
         "gen_consts": info.get("gen_consts"),
         "source_changed_since_fingerprint": list(BOOST),
+        "stale_generated_constants": dict(STALE),
     }
     for k in ("pending_thorough_only", "leanchecker"):
         if k in info:
